@@ -33,11 +33,15 @@ package bluemonday
 //@   ensures result0 != nil && fresh(result0)
 //@   ensures result1 <==> (exists r *regexp.Regexp :: r in p.elsMatchingAndAttrs && rmatch(r, elementName))
 //@   ensures[C02] apsRulesOK(p, elementName, result0)
+//@   ensures[C07] forall r *regexp.Regexp, k string, x bluemonday.attrPolicy :: rmatch(r, elementName) && ruleInPat(p, r, k, x) ==> k in result0 && (exists jp int :: 0 <= jp && jp < len(result0[k]) && result0[k][jp] == x)
 //@   loop 0 "for regex, attrs := range p.elsMatchingAndAttrs"
 //@     invariant matched <==> (exists r *regexp.Regexp :: $visited(r) && rmatch(r, elementName))
 //@     invariant forall k string :: k in aps ==> arr(aps[k]) == nil || allocated(arr(aps[k]))
 //@     invariant[C02] apsRulesOKE(p, elementName, aps)
+//@     invariant[C07] forall r *regexp.Regexp, k string, x bluemonday.attrPolicy :: $visited(r) && rmatch(r, elementName) && ruleInPat(p, r, k, x) ==> k in aps && (exists jp int :: 0 <= jp && jp < len(aps[k]) && aps[k][jp] == x)
 //@   loop 1 "for k, v := range attrs"
+//@     invariant[C07] forall r *regexp.Regexp, k string, x bluemonday.attrPolicy :: $visited0(r) && r != regex && rmatch(r, elementName) && ruleInPat(p, r, k, x) ==> k in aps && (exists jp int :: 0 <= jp && jp < len(aps[k]) && aps[k][jp] == x)
+//@     invariant[C07] regex in p.elsMatchingAndAttrs && attrs == p.elsMatchingAndAttrs[regex] && (forall k string, x bluemonday.attrPolicy :: $visited(k) && ruleInPat(p, regex, k, x) ==> k in aps && (exists jp int :: 0 <= jp && jp < len(aps[k]) && aps[k][jp] == x))
 //@     invariant forall k string :: k in aps ==> arr(aps[k]) == nil || allocated(arr(aps[k]))
 //@     invariant[C02] apsRulesOKE(p, elementName, aps)
 
@@ -55,12 +59,14 @@ package bluemonday
 //@   requires[strict] (forall e string :: !(e in p.elsAndAttrs)) && (forall r *regexp.Regexp :: !(r in p.elsMatchingAndAttrs)) && !p.allowComments && !p.allowUnsafe
 //@   at-call (*html.Tokenizer).Next
 //@     assume[wellnested] gD >= 0 && gD == old(gD) + ite(tzCur.Type == 2 && skipEl(p, tzCur.Data), 1, 0) - ite(tzCur.Type == 3 && skipEl(p, tzCur.Data), 1, 0)
+//@     assume[clean] cleanTok(p, tzCur)
 //@     assume[textpres] isTagTok(tzCur) ==> normalise(tzCur.Data) != "script" && normalise(tzCur.Data) != "style" && !(tzCur.Data in p.setOfElementsToSkipContent)
 //@   at-call (io.StringWriter).WriteString(w, s)
 //@     assert[C01] emitC01(p, token, s) || (p.allowUnsafe && token.Type == 1 && s == token.Data && isScriptStyle(mostRecentlyStartedToken) && elAllowed(p, mostRecentlyStartedToken))
 //@     assert[C05] emitC05(p, token, tzPrev, s)
 //@     assert[C04,strict] (s == " " && p.addSpaces) || (token.Type == 1 && s == TokString(token, elems(token.Attr)))
 //@     assert[C08,wellnested] s == " " || gD == 0
+//@     assert[C07,clean] s == TokString(token, elems(token.Attr)) && token.Type == tzCur.Type && token.Data == tzCur.Data && len(token.Attr) == len(tzCur.Attr) && (forall i int :: 0 <= i && i < len(token.Attr) ==> token.Attr[i] == tzCur.Attr[i])
 //@   at-call (io.StringWriter).WriteString(w, s) where s from (html.Token).String
 //@     assert[C02] (token.Type == 2 || token.Type == 4) ==> (len(token.Attr) == 0 && bareOK(p, token.Data)) || (len(token.Attr) > 0 && sanEl == token.Data && sanRes == token.Attr)
 //@   before "switch token.Type {"
@@ -72,12 +78,14 @@ package bluemonday
 //@     invariant[C05] tzCur.Type == 2 ==> mostRecentlyStartedToken == normalise(tzCur.Data)
 //@     invariant[C06,textpres] !skipElementContent && skippingElementsCount == 0 && mostRecentlyStartedToken != "script" && mostRecentlyStartedToken != "style"
 //@     invariant[C06,textpres] stepOK(p, tzCur, outN, outLast)
+//@     invariant[C07,clean] !skipElementContent && skippingElementsCount == 0 && !skipClosingTag && mostRecentlyStartedToken != "script" && mostRecentlyStartedToken != "style" && (tzCur.Type == 99 || outN == 1)
 //@     invariant[C08,wellnested] gD >= 0 && skippingElementsCount == gD && (skipElementContent <==> gD > 0)
 //@     invariant[C08,wellnested] forall i int :: 0 <= i && i < len(closingTagToSkipStack) ==> elAllowed(p, closingTagToSkipStack[i])
 //@     invariant[C08,wellnested] tzCur.Type == 1 && gD == 0 && mostRecentlyStartedToken != "script" && mostRecentlyStartedToken != "style" ==> outN == 1 && outLast == TokString(tzCur, elems(tzCur.Attr))
 //@   loop 1 "for regex := range p.elsMatchingAndAttrs"
 //@     invariant[C06,textpres] skippingElementsCount == 0 && mostRecentlyStartedToken != "script" && mostRecentlyStartedToken != "style"
 //@     invariant match <==> (exists r *regexp.Regexp :: $visited(r) && rmatch(r, token.Data))
+//@     invariant[C07,clean] !skipElementContent && skippingElementsCount == 0 && !skipClosingTag && mostRecentlyStartedToken != "script" && mostRecentlyStartedToken != "style"
 //@     invariant wfp(p) && p.initialized
 //@     invariant skipClosingTag <==> len(closingTagToSkipStack) > 0
 //@     invariant[C16] !outFailed
@@ -118,6 +126,7 @@ package bluemonday
 //@   ensures[C16] result == nil ==> tzErr == io.EOF
 
 //@ func bluemonday.isDataAttribute
+//@   pure
 //@   modifies nothing
 //@   ensures result ==> rmatch(dataAttribute, val)
 
@@ -157,6 +166,8 @@ package bluemonday
 //@   ensures[C02] attrsGood(p, elementName, result)
 //@   ensures[C03] p.requireParseableURLs ==> urlsOK(p, elementName, result)
 //@   ensures[C10] stylesOKif(p, elementName, result)
+//@   requires[clean] quiet(p, elementName) && (forall i int :: 0 <= i && i < len(attrs) ==> admAny(p, aps, attrs[i].Key, attrs[i].Val) && !(attrs[i].Key == "style" && hasStyleRulesS(p, elementName)))
+//@   ensures[C07,clean] len(result) == len(attrs) && (forall i int :: 0 <= i && i < len(attrs) ==> result[i] == attrs[i])
 //@   ensures[C11] link3(elementName) && hasKey(result, "href") && (p.requireNoFollow || (p.requireNoFollowFullyQualifiedLinks && extHref(result))) ==> hasKey(result, "rel") && relsHave(result, "nofollow")
 //@   ensures[C11] link3(elementName) && hasKey(result, "href") && (p.requireNoReferrer || (p.requireNoReferrerFullyQualifiedLinks && extHref(result))) ==> hasKey(result, "rel") && relsHave(result, "noreferrer")
 //@   ensures[C11] elementName == "a" && p.addTargetBlankToFullyQualifiedLinks && extHref(result) ==> hasKey(result, "target") && firstTargetBlank(result)
@@ -164,7 +175,7 @@ package bluemonday
 //@   ensures[C12] p.requireCrossOriginAnonymous && coEl(elementName) && len(result) > 0 ==> hasKey(result, "crossorigin") && (forall i int :: 0 <= i && i < len(result) && result[i].Key == "crossorigin" ==> result[i].Val == "anonymous")
 //@   ensures[C12] p.requireSandboxOnIFrame != nil && elementName == "iframe" && len(result) > 0 ==> hasKey(result, "sandbox") && (forall i int :: 0 <= i && i < len(result) && result[i].Key == "sandbox" ==> sandboxOK(p, result[i].Val))
 //@   before "cleanAttrs := []html.Attribute{}"
-//@     lemma[C10] hasStylePolicies <==> hasStyleRulesS(p, elementName)
+//@     lemma[C07,C10] hasStylePolicies <==> hasStyleRulesS(p, elementName)
 //@   before "if (p.requireNoFollow ||"
 //@     lemma[C10] stylesOKif(p, elementName, cleanAttrs)
 //@   before "if hrefFound {"
@@ -189,12 +200,19 @@ package bluemonday
 //@     lemma[C11] elementName == "a" && p.addTargetBlankToFullyQualifiedLinks && extHref(cleanAttrs) ==> hasKey(cleanAttrs, "target") && firstTargetBlank(cleanAttrs)
 //@     lemma[C11] elementName == "a" && linkOpts(p) && hasKey(cleanAttrs, "href") && hasBlankTarget(cleanAttrs) ==> hasKey(cleanAttrs, "rel") && relsHave(cleanAttrs, "noopener")
 //@   loop 0 "for k, v := range p.elsMatchingAndStyles"
-//@     invariant[C10] !(len(p.globalStyles) > 0) && !(elementName in p.elsAndStyles && len(p.elsAndStyles[elementName]) > 0)
-//@     invariant[C10] forall r *regexp.Regexp :: $visited(r) ==> !(rmatch(r, elementName) && len(p.elsMatchingAndStyles[r]) > 0)
+//@     invariant[C07,C10] !(len(p.globalStyles) > 0) && !(elementName in p.elsAndStyles && len(p.elsAndStyles[elementName]) > 0)
+//@     invariant[C07,C10] forall r *regexp.Regexp :: $visited(r) ==> !(rmatch(r, elementName) && len(p.elsMatchingAndStyles[r]) > 0)
 //@   loop 1 "for _, htmlAttr := range attrs"
 //@     invariant fresh(cleanAttrs)
+//@     invariant[C07] rangeindex < len(attrs) && (forall i int :: 0 <= i && i <= rangeindex && admAny(p, aps, attrs[i].Key, attrs[i].Val) && !(attrs[i].Key == "style" && hasStylePolicies) ==> (exists j int :: 0 <= j && j < len(cleanAttrs) && cleanAttrs[j] == attrs[i]))
+//@     invariant[C07,clean] len(cleanAttrs) == rangeindex + 1 && (forall i int :: 0 <= i && i <= rangeindex ==> cleanAttrs[i] == attrs[i])
+//@     after[C07] forall i int :: 0 <= i && i < len(attrs) && admAny(p, aps, attrs[i].Key, attrs[i].Val) && !(attrs[i].Key == "style" && hasStylePolicies) ==> (exists j int :: 0 <= j && j < len(cleanAttrs) && cleanAttrs[j] == attrs[i])
 //@     invariant[C10] stylesOKif(p, elementName, cleanAttrs)
 //@     invariant[C02] attrsAdm(p, elementName, cleanAttrs)
+//@   loop 2 "for _, ap := range apl"
+//@     invariant[C07] rangeindex < len(apl) && (forall j int :: 0 <= j && j <= rangeindex ==> !acceptsAP(apl[j], htmlAttr.Val))
+//@   loop 3 "for _, ap := range apl"
+//@     invariant[C07] rangeindex < len(apl) && (forall j int :: 0 <= j && j <= rangeindex ==> !acceptsAP(apl[j], htmlAttr.Val))
 //@   loop 4 "for _, htmlAttr := range cleanAttrs"
 //@     invariant[C10] stylesOKif(p, elementName, tmpAttrs)
 //@     invariant fresh(tmpAttrs)
